@@ -223,3 +223,76 @@ def h_text_kept(b2: int, b3: int, mask: int) -> bool:
     with NoTracing():
         ok = check_doc(FORMATS[fi], kinds, mask)
     return done(ok)
+
+
+# ------------------------------------------------------------------ fields: every instance shown or reported
+FKINDS = ["param", "type", "return", "rtype", "raises", "note", "see"]
+NFK = len(FKINDS)
+
+
+def field_instance(fmt, kind, n):
+    """the n-th (1 or 2) field of that kind -> (lines, marker word or None)"""
+    wd = "fw%s%d" % (kind, n)
+    if fmt in ("epytext", "restructuredtext"):
+        a, b = ("@", "") if fmt == "epytext" else (":", ":")
+        # the second 'param' documents the same parameter again; the second 'raises' the same exception again
+        tmpl = {"param": "%sparam p%s: %s text", "type": "%stype p%s: %s", "return": "%sreturn%s: %s text", "rtype": "%srtype%s: %s",
+                "raises": "%sraise ValueError%s: %s text", "note": "%snote%s: %s text", "see": "%ssee%s: %s text"}[kind]
+        tmpl = tmpl.replace("%s:", ":", 1) if fmt == "epytext" else tmpl.replace("%s:", "%s", 1)
+        if fmt == "epytext":
+            line = tmpl % (a, wd)
+        else:
+            line = tmpl % (a, b, wd)
+        return [line], wd
+    if fmt == "google":
+        sec = {"param": ["Args:", "    p: %s text" % wd], "type": None, "return": ["Returns:", "    %s text" % wd], "rtype": None,
+               "raises": ["Raises:", "    ValueError: %s text" % wd], "note": ["Note:", "    %s text" % wd], "see": ["See Also:", "    %s text" % wd]}[kind]
+        return (sec + [""], wd) if sec else ([], None)
+    if fmt == "numpy":
+        sec = {"param": ["Parameters", "----------", "p : int", "    %s text" % wd], "type": None, "return": ["Returns", "-------", "int", "    %s text" % wd], "rtype": None,
+               "raises": ["Raises", "------", "ValueError", "    %s text" % wd], "note": ["Note", "----", "%s text" % wd], "see": ["See Also", "--------", "%s : text" % wd]}[kind]
+        return (sec + [""], wd) if sec else ([], None)
+    raise KeyError(fmt)
+
+
+def check_fields(fmt, counts):
+    lines = ["Summary0 line.", ""]
+    words = []
+    for kind, c in zip(FKINDS, counts):
+        for n in range(1, c + 1):
+            ls, wd = field_instance(fmt, kind, n)
+            lines += ls
+            if wd:
+                words.append((kind, n, wd))
+    doc = "\n".join(lines)
+    src = "def f(p):\n    '''\n" + "".join(("    " + ln if ln else "") + "\n" for ln in doc.split("\n")) + "    '''\n    return p\n"
+    sample(docformat=fmt, docstring=doc)
+    opts = copy.copy(PJ.OPTS)
+    opts.docformat = fmt
+    s = PJ.build({"m": (src, False)}, opts=opts)
+    o = s.allobjects["m.f"]
+    text = flatten_text(epydoc2stan.format_docstring(o))
+    warned = [m[1] for m in s.msgs if m[2] < 0 and "Cannot find link target" not in m[1]]
+    for kind, n, wd in words:
+        if wd not in text and not warned:
+            note(why="the text of a field is silently discarded (not shown, nothing reported)", field=kind, instance=n, word=wd, docformat=fmt, docstring=doc, visible=text[:300])
+            return False
+    return True
+
+
+@harness(
+    parts=lambda: [[f, a] for f in range(4) for a in range(3)], timeout=(300, 1200), cls="E", tracing="concrete-after-choice", twin="first",
+    code=["pydoctor.epydoc2stan.FieldHandler.handle_* / format", "pydoctor.epydoc.markup.epytext (fields)", "pydoctor.epydoc.markup.restructuredtext._SplitFieldsTranslator", "pydoctor.napoleon.docstring (sections)"],
+    bounds={"quick": "every multiset of fields with 0..2 instances of each of 7 kinds (param, type, return, rtype, raises, note, see), 4 docformats (2 187 docstrings each; type/rtype have no google/numpy form)", "thorough": "same"},
+    outside="three or more instances of one kind; the other field kinds",
+)
+def h_fields_kept(c1: int, c2: int, c3: int, c4: int, c5: int, c6: int) -> bool:
+    """
+    pre: 0 <= c1 <= 2 and 0 <= c2 <= 2 and 0 <= c3 <= 2 and 0 <= c4 <= 2 and 0 <= c5 <= 2 and 0 <= c6 <= 2
+    post: _
+    """
+    fi, c0 = PART if PART is not None else [0, 1]
+    cs = [c0, pick(c1, 0, 2), pick(c2, 0, 2), pick(c3, 0, 2), pick(c4, 0, 2), pick(c5, 0, 2), pick(c6, 0, 2)]
+    with NoTracing():
+        ok = check_fields(FORMATS[fi], cs)
+    return done(ok)
